@@ -39,4 +39,18 @@ CLAIMED["C16"] = {
     "note": "Trusted: numpy tofile/fromfile text-mode contracts; a double round-trips through 17 significant digits.",
 }
 
+CLAIMED["C13"] = {
+    "technique": "static analysis: per-call attribute init-before-use typestate over solve()'s call closure (MRO-resolved "
+                 "inlining), keyed-slot restoration on all exits, projection/bounds pattern on every update_step sibling, "
+                 "best-model synchronisation roles in the epoch loop, affine index-vs-slice coverage of the traces, symbolic "
+                 "row-count algebra of the sampler triples",
+    "level": "Decides that no solver attribute mutated during solve() is read before solve() re-initialises it (reuse), that "
+             "the L-BFGS-B callback slot never keeps the per-solve monitor, that every returned factor is max(lower_bound, .) "
+             "and the bound is forwarded end to end, that a failed epoch is 'new > previous' with copy-based rollback/commit of "
+             "the best model, that the returned trace prefix covers the last written index, and that each sampler returns "
+             "subs/vals/weights with provably equal row counts. Does not decide weight totals or objective comparisons.",
+    "note": "Trusted: loops of solve() run at least once; operands well-formed (rows(subs)==rows(vals)==nnz); numpy shape "
+            "contracts in pv/rows.py.",
+}
+
 NOT_APPLICABLE = {}
